@@ -6,6 +6,7 @@ import (
 	"bytes"
 	"context"
 	"errors"
+	"net"
 	"net/netip"
 	"os"
 	"sync/atomic"
@@ -24,6 +25,7 @@ type sessionUplinkMmsg struct {
 	csid           uint64
 	clientName     string
 	natConn        *conn.MmsgWConn
+	natConnState   *atomic.Pointer[net.UDPConn]
 	natConnSendCh  <-chan *sessionQueuedPacket
 	natConnPacker  zerocopy.ClientPacker
 	natTimeout     time.Duration
@@ -377,6 +379,7 @@ func (s *UDPSessionRelay) recvFromServerConnRecvmmsg(ctx context.Context, lnc *u
 							csid:           csid,
 							clientName:     clientInfo.Name,
 							natConn:        natConn.NewWConn(),
+							natConnState:   &entry.state,
 							natConnSendCh:  natConnSendCh,
 							natConnPacker:  clientSession.Packer,
 							natTimeout:     lnc.natTimeout,
@@ -556,6 +559,14 @@ main:
 				zap.Duration("natTimeout", uplink.natTimeout),
 				zap.Error(err),
 			)
+		}
+
+		// Stop may have just set an immediate deadline to end this session.
+		// Do not let an in-flight packet keep the session alive until the NAT timeout.
+		if uplink.natConnState.Load() != uplink.natConn.UDPConn {
+			if err := uplink.natConn.SetReadDeadline(conn.ALongTimeAgo); err != nil {
+				uplink.logger.Error("Failed to set read deadline on natConn", zap.Error(err))
+			}
 		}
 
 		qpvecn := qpvec[:count]
